@@ -200,14 +200,29 @@ def run(tier, seed):
         return 1
     if pending_failure is not None:
         raise pending_failure
+    # delegation for a MIRRORED trait: the bodies in the declaration are placeholders, the upstream bodies must run against the mock
+    from .C20 import ExtrasPart
+    xn, xpayload, xcov = ExtrasPart("C15")(rng, tier, seed, [])
+    cov.update(xcov)
+    cov["obligations"] += 1
+    cov["evaluations"] += xn
+    if xpayload is not None:
+        path = C.write_replay("C15", seed, xpayload)
+        C.write_evidence("C15", tier, seed, cov, time.time() - t0, 1)
+        C.violation("C15", path)
+        return 1
+    cov["discharged"] += 1
     C.write_evidence("C15", tier, seed, cov, time.time() - t0, 0,
                      assumptions=["model/implementation agreement on the generated cases only; the default body is the harness' parametric one"])
-    print(f"C15: {len(obligations)} theorems closed; {len(cases)} co-executions agree ({time.time()-t0:.1f}s)")
+    print(f"C15: {len(obligations)} theorems closed; {len(cases)} co-executions + {xn} mirrored-trait scripts agree ({time.time()-t0:.1f}s)")
     return 0
 
 
 def replay(path):
     payload = json.load(open(path))
+    if payload.get("part") == "xcase":
+        from .C20 import replay_xcase
+        return replay_xcase("C15", payload, path)
     case = payload["case"]
     ci, cm = D.both(CRATE, [case])
     print("model:", cm[0]); print("impl :", ci[0])
